@@ -50,7 +50,7 @@ func init() {
 		rule: "15 fan-out/fan-in constructs (Split+w consumers, ProcessParallel, ParallelForEach, itertool.Process/Worker, Map, ParallelBuffer, Buffer, MergeIterators with unequal/empty sources, GenerateParallel, concurrent ReadOne, " +
 			"HF.WorkerPool/OperationPool, two nested combinations) x n in {0,1,2,3,w-1,w,w+1,2w+1,2w+2,random<=300} x w in {1,2,3,4,8,16,33} x speed profiles for source/worker/consumer x GOMAXPROCS 1/2/4/16; unique ids; " +
 			"oracle: multiset(invocations)=multiset(output)=input, exact sequence for Buffer and single workers, nil error; no abort, cancel or early Close. " +
-			"FirstAdvance: 24 small fresh pipelines per case (Map, Split, ParallelBuffer, Buffer, GenerateParallel, MergeIterators) whose first advance comes from 2-8 spin-aligned goroutines, the last item slow; Map and GenerateParallel are also entered through itertool.Map / itertool.Generate. " +
+			"FirstAdvance (3 of 18 cases): 40 small fresh pipelines per case (Map, Split, ParallelBuffer, Buffer, GenerateParallel, MergeIterators) whose first advance comes from 2-8 spin-aligned goroutines, the last item slow; Map and GenerateParallel are also entered through itertool.Map / itertool.Generate. " +
 			"distinct_nontrivial = distinct (construct, n-class relative to w, w, profile triple) with n>=2 and w>=2",
 		assumptions:   append([]string{"a pipeline that does not finish is decided at quiescence (census), otherwise inconclusive"}, commonAssumptions...),
 		floorEvals:    1500,
